@@ -57,6 +57,13 @@ def run_case(case):
                            bound_patterns=("two", "narrow", "two"),
                            x0_where=str(rng.choice(["on", "inside"])))
         spec["options"]["scale"] = True
+    if case["idx"] % 5 == 1:
+        # curved feasible set hugging a face of the box: runs rich in
+        # second-order-correction steps (the point handed to the callback
+        # may be a trial point that was corrected afterwards)
+        from checks import c01
+        spec = c01.make_spec({"id": case["id"], "fam": "soc",
+                              "idx": case["idx"], "seed": case["seed"]})
     cb = {"conv": str(rng.choice(["kw", "pos"])),
           "form": str(rng.choice(["def", "lambda", "object", "partial",
                                   "unhashable"]))}
